@@ -80,3 +80,24 @@ Theorem tj_tables_from_source :
                     (get_dst_subsamp (Z.of_nat i) true XRot90 =? 3))
           (seq 0 7) = true.
 Proof. split; vm_compute; reflexivity. Qed.
+
+(* per routine: MCU_cols / MCU_rows are taken from the source dimension that is the uncropped
+   destination width / height, for exactly the mirrored axes (what mirror_cols / mirror_rows of the
+   specification and g_sw / g_sh of the model use); the column loop steps by h_samp_factor exactly
+   in the transposing routines (the two iteration spaces of [nest]) *)
+Definition routine_op (r : string) : xop :=
+  if String.eqb r "do_crop" then XNone else if String.eqb r "do_flip_h_no_crop" then XFlipH
+  else if String.eqb r "do_flip_h" then XFlipH else if String.eqb r "do_flip_v" then XFlipV
+  else if String.eqb r "do_transpose" then XTranspose else if String.eqb r "do_rot_90" then XRot90
+  else if String.eqb r "do_rot_270" then XRot270 else if String.eqb r "do_rot_180" then XRot180 else XTransverse.
+
+Definition srcdim_eqb (a b : option srcdim) : bool :=
+  match a, b with None, None => true | Some DimW, Some DimW => true | Some DimH, Some DimH => true | _, _ => false end.
+
+Theorem routine_shapes_from_source :
+  map fst gen_blockwise = ["do_crop"; "do_flip_h_no_crop"; "do_flip_h"; "do_flip_v"; "do_transpose"; "do_rot_90";
+                           "do_rot_270"; "do_rot_180"; "do_transverse"]%string /\
+  forallb (fun e => Bool.eqb (snd e) (transposes (routine_op (fst e)))) gen_blockwise = true /\
+  forallb (fun e => let op := routine_op (fst (fst e)) in
+                    srcdim_eqb (snd (fst e)) (trim_dim_right op) && srcdim_eqb (snd e) (trim_dim_bottom op)) gen_mcu_dims = true.
+Proof. repeat split; vm_compute; reflexivity. Qed.
